@@ -306,7 +306,7 @@ Qed.
 
 Lemma init_inv : forall n0 t0, 0 <= n0 -> 0 <= t0 -> inv (finit n0 t0).
 Proof.
-  intros. constructor; cbn; try constructor; try lia. intros r [].
+  intros. constructor; cbn; try constructor; try lia; try (intros r []).
 Qed.
 
 Lemma known_nil : forall c, known_C17 c = [] ->
